@@ -190,7 +190,14 @@ def _cases_task(task):
         if rng.random() < 0.25:
             table, indels = evidence.realistic_indels(table)
             low = None
-        cov = evidence.make_coverage(g, prof, table, low, indels)
+        sam, phase_recs = None, None
+        if rng.random() < 0.35 and mode in ("noisy", "witness", "planted"):
+            # read-phase evidence of the planted haplotypes (with some wrong fragments when the table is noisy)
+            psites = {m.pos for m in considered(g, called)}
+            phase_recs = evidence.plant_phases(rng, g, [present_variants(g, a, mi) for a, mi in bag], psites,
+                                               per_copy=rng.choice([4, 10, 20]), noise=0.0 if planted is not None else 0.15)
+            sam = evidence.FakeSam(phase_recs)
+        cov = evidence.make_coverage(g, prof, table, low, indels, None, sam)
         msol = make_major_sol(g, struct, called, novel)
         raised = ""
         try:
@@ -201,7 +208,7 @@ def _cases_task(task):
         enum = mode == "noisy" or (mode == "witness" and small_enough(g, called, table))
         rows.append(project.minor_case(cid, g, cov, msol, res, enumerate_all=enum, planted=planted, raised=raised))
         meta[cid] = {"gene": f"{gname}/{genome}", "struct": struct, "called": called, "bag": bag, "table": table, "low": low,
-                     "params": kw, "mode": mode, "indels": [[k[0], k[1], v[0], v[1]] for k, v in (indels or {}).items()], "novel": [list(x) for x in novel], "noise_free": planted is not None, "raised": raised, "enumerate": enum,
+                     "params": kw, "mode": mode, "phases": phase_recs, "indels": [[k[0], k[1], v[0], v[1]] for k, v in (indels or {}).items()], "novel": [list(x) for x in novel], "noise_free": planted is not None, "raised": raised, "enumerate": enum,
                      "result": [([(sa.major, sa.minor, [str(x) for x in sa.added], [str(x) for x in sa.missing]) for sa in s.solution], s.score) for s in res]}
     return rows, meta
 
@@ -313,7 +320,8 @@ def replay(path):
     table = {int(p): v for p, v in m["table"].items()}
     low = {int(p): {o: tuple(x) for o, x in v.items()} for p, v in (m.get("low") or {}).items()} or None
     indels = {(int(a), b): (c, d) for a, b, c, d in m.get("indels", [])} or None
-    cov = evidence.make_coverage(g, _profile(**m["params"]), table, low, indels)
+    sam = evidence.FakeSam({k: {int(p_): o_ for p_, o_ in v.items()} for k, v in m["phases"].items()}) if m.get("phases") else None
+    cov = evidence.make_coverage(g, _profile(**m["params"]), table, low, indels, None, sam)
     msol = make_major_sol(g, m["struct"], m["called"], m.get("novel", []))
     with aldyenv.quiet_stderr():
         res = run_minor(g, cov, msol)
